@@ -23,8 +23,8 @@ namespace {
 double now_s() { struct timespec ts; clock_gettime(CLOCK_MONOTONIC, &ts); return ts.tv_sec + ts.tv_nsec * 1e-9; }
 
 struct Stream { uint32_t outlen = 32, keylen = 0; uint64_t keyseed = 0, msglen = 0, msgseed = 0; bool zero = false; }; // zero: the message is all zero bytes (lets one update exceed 4 GiB without memory)
-enum StepKind { S_UPDATE, S_FINAL, S_FINAL_SHORT, S_ONESHOT, S_BAD_ONESHOT, S_BAD_INIT, S_BAD_INIT_KEY, S_COMMIT, S_KINDS };
-static const char *SNAMES[S_KINDS] = {"update", "final", "final_short", "oneshot", "bad_oneshot", "bad_init", "bad_init_key", "commit"};
+enum StepKind { S_UPDATE, S_FINAL, S_FINAL_SHORT, S_ONESHOT, S_BAD_ONESHOT, S_BAD_INIT, S_BAD_INIT_KEY, S_COMMIT, S_MOVE, S_KINDS };
+static const char *SNAMES[S_KINDS] = {"update", "final", "final_short", "oneshot", "bad_oneshot", "bad_init", "bad_init_key", "commit", "move"};
 struct Step { int kind = 0; int s = 0; uint64_t n = 0; uint32_t a = 0, b = 0; };
 struct Plan11 {
 	uint64_t seed = 0; std::vector<Stream> streams; std::vector<Step> steps;
@@ -87,7 +87,7 @@ struct Viol { std::string cls, sig, detail; int step; };
 static __thread seam::OpCtx *g_ctx = nullptr;
 #define LIB(call) ([&]() { seam::lib_enter(g_ctx); auto lib_r_ = (call); seam::lib_exit(); return lib_r_; }())
 #define LIBV(call) do { seam::lib_enter(g_ctx); try { call; } catch (const std::exception &) { lib_threw_ = true; } seam::lib_exit(); } while (0)
-struct Result { std::vector<Viol> v; uint64_t fp = 0x11; uint64_t bytes = 0; uint64_t updates = 0, finals = 0, misuse = 0, early_finals = 0, zero_chunks = 0, interleaved = 0; bool invalid = false; std::vector<rt::Switch> recorded; uint64_t switches = 0, ilv = 0; };
+struct Result { std::vector<Viol> v; uint64_t fp = 0x11; uint64_t bytes = 0; uint64_t moves = 0, updates = 0, finals = 0, misuse = 0, early_finals = 0, zero_chunks = 0, interleaved = 0; bool invalid = false; std::vector<rt::Switch> recorded; uint64_t switches = 0, ilv = 0; };
 
 // an invalid output length: just above the limit, and values whose low 8 / 16 / 32 bits look valid
 size_t bad_outlen(uint32_t r) {
@@ -116,7 +116,9 @@ bool canary_ok(const uint8_t *p, size_t n) { for (size_t i = 0; i < n; ++i) if (
 Result run(const Plan11 &p) {
 	Result R;
 	size_t ns = p.streams.size();
-	struct Live { blake2b_state st; model::B2 ref; bool inited = false, valid = false, finalized = false; uint64_t fed = 0; std::vector<uint8_t> key; };
+	// the caller owns the state object: it is a plain struct and may be copied or moved between calls (a container that grows,
+	// a saved midstate). S_MOVE relocates it (byte copy to other storage, old storage overwritten).
+	struct Live { blake2b_state store[2]; int cur = 0; blake2b_state &S() { return store[cur]; } model::B2 ref; bool inited = false, valid = false, finalized = false; uint64_t fed = 0; std::vector<uint8_t> key; };
 	std::vector<Live> L(ns);
 	std::vector<uint8_t> chunk;
 	int last_stream = -1;
@@ -126,8 +128,8 @@ Result run(const Plan11 &p) {
 		if (l.inited) return;
 		l.inited = true;
 		l.key.resize(t.keylen); if (t.keylen) msg_bytes(t.keyseed, 0, l.key.data(), t.keylen);
-		memset(&l.st, 0x5A, sizeof l.st);
-		int rc = LIB(t.keylen ? blake2b_init_key(&l.st, t.outlen, l.key.data(), t.keylen) : blake2b_init(&l.st, t.outlen));
+		memset(&l.S(), 0x5A, sizeof l.S());
+		int rc = LIB(t.keylen ? blake2b_init_key(&l.S(), t.outlen, l.key.data(), t.keylen) : blake2b_init(&l.S(), t.outlen));
 		bool ok = l.ref.init(t.outlen, t.keylen ? l.key.data() : nullptr, t.keylen);
 		l.valid = ok;
 		if ((rc == 0) != ok) fail("B2_INIT_STATUS", std::string("init returned ") + (rc == 0 ? "0" : "-1") + " for " + (ok ? "valid" : "invalid") + " parameters", "outlen=" + std::to_string(t.outlen) + " keylen=" + std::to_string(t.keylen), step);
@@ -158,7 +160,7 @@ Result run(const Plan11 &p) {
 				if (n && si % 3 != 0) { uint8_t *e = edge_place(rt::sched_current_task(), (size_t)n); if (e) { memcpy(e, chunk.data(), (size_t)n); data = e; } }
 			}
 			if (n == 0 && (st.a & 1)) data = nullptr; // an empty chunk may be passed as (NULL, 0)
-			int rc = LIB(blake2b_update(&l.st, data, (size_t)n));
+			int rc = LIB(blake2b_update(&l.S(), data, (size_t)n));
 			int want = (!l.valid || l.finalized) && n > 0 ? -1 : 0;
 			// a zero-length update on a finished or rejected state: the property does not say; accept 0 and -1
 			if (n == 0 && (!l.valid || l.finalized) && (rc == 0 || rc == -1)) want = rc;
@@ -179,7 +181,7 @@ Result run(const Plan11 &p) {
 			bool shortbuf = st.kind == S_FINAL_SHORT && t.outlen > 1;
 			if (shortbuf) olen = t.outlen - 1 - (st.a % t.outlen) % (t.outlen - 1);
 			if (olen == 0) olen = 1, shortbuf = t.outlen > 1;
-			int rc = LIB(blake2b_final(&l.st, out + 16, olen));
+			int rc = LIB(blake2b_final(&l.S(), out + 16, olen));
 			bool expect_ok = l.valid && !l.finalized && !shortbuf;
 			if ((rc == 0) != expect_ok) fail("B2_FINAL_STATUS", std::string("final returned ") + std::to_string(rc) + (l.finalized ? " after final" : shortbuf ? " with short buffer" : !l.valid ? " on invalid state" : ""), "", (int)si);
 			if (expect_ok) {
@@ -253,6 +255,18 @@ Result run(const Plan11 &p) {
 			R.fp = rt::mix64(R.fp, (uint64_t)(rc & 3) + 40);
 			break;
 		}
+		case S_MOVE: {
+			if (st.s < 0 || st.s >= (int)ns) break;
+			Live &l = L[st.s];
+			if (!l.inited) break;
+			int other = 1 - l.cur;
+			memcpy(&l.store[other], &l.store[l.cur], sizeof(blake2b_state));
+			memset(&l.store[l.cur], 0xDD, sizeof(blake2b_state));
+			l.cur = other;
+			R.fp = rt::mix64(R.fp, 0x3057);
+			++R.moves;
+			break;
+		}
 		case S_COMMIT: {
 			// a = hash seed, n = input length (bounded)
 			size_t n = (size_t)std::min<uint64_t>(st.n, 1 << 16);
@@ -280,7 +294,7 @@ Result run(const Plan11 &p) {
 		ctl.per.assign((size_t)nt + 1, std::vector<size_t>()); ctl.fn = &do_step;
 		for (size_t si = 0; si < p.steps.size(); ++si) {
 			const Step &st = p.steps[si];
-			bool has_stream = st.kind == S_UPDATE || st.kind == S_FINAL || st.kind == S_FINAL_SHORT || st.kind == S_ONESHOT;
+			bool has_stream = st.kind == S_UPDATE || st.kind == S_FINAL || st.kind == S_FINAL_SHORT || st.kind == S_ONESHOT || st.kind == S_MOVE;
 			ctl.per[1 + (has_stream ? (size_t)st.s : si) % (size_t)nt].push_back(si);
 		}
 		rt::SchedConfig sc; sc.replay = p.replay; sc.script = p.sched; sc.seed = rt::mix64(p.seed, 0x5c4ed); sc.p_num = p.p_num; sc.p_den = p.p_den;
@@ -366,6 +380,7 @@ Plan11 generate(uint64_t run_seed, bool thorough, bool huge, bool threaded) {
 			done[s] = true; --open;
 			continue;
 		}
+		if (r.chance(1, 12)) p.steps.push_back(Step{S_MOVE, s, 0, 0, 0}); // the caller relocates the state object between two calls
 		uint64_t n;
 		switch (mode[s]) {
 		case 0: n = 1; break;                                 // dribble
@@ -391,8 +406,8 @@ void print_result(uint64_t idx, const Plan11 &p, const Result &R, bool with_plan
 	         (unsigned long long)R.fp, p.steps.size(), p.steps.size(), p.steps.size(), p.streams.size(), R.invalid ? "true" : "false", p.steps.size(), (unsigned long long)(p.threads ? R.switches : R.interleaved),
 	         (unsigned long long)(p.threads ? R.ilv : R.interleaved), (unsigned long long)rt::fnv64(p.streams.data(), 0) ^ (unsigned long long)p.steps.size() * 1315423911ULL ^ (unsigned long long)p.streams.size());
 	s += b;
-	snprintf(b, sizeof b, ",\"req\":[0,0,0,0],\"fired\":[0,0,0,0],\"probes\":{\"bytes\":%llu,\"updates\":%llu,\"finals\":%llu,\"misuse_calls\":%llu,\"early_finals\":%llu,\"zero_length_chunks\":%llu,\"interleaved_switches\":%llu}",
-	         (unsigned long long)R.bytes, (unsigned long long)R.updates, (unsigned long long)R.finals, (unsigned long long)R.misuse, (unsigned long long)R.early_finals, (unsigned long long)R.zero_chunks, (unsigned long long)R.interleaved);
+	snprintf(b, sizeof b, ",\"req\":[0,0,0,0],\"fired\":[0,0,0,0],\"probes\":{\"bytes\":%llu,\"updates\":%llu,\"finals\":%llu,\"misuse_calls\":%llu,\"early_finals\":%llu,\"zero_length_chunks\":%llu,\"interleaved_switches\":%llu,\"state_relocations\":%llu}",
+	         (unsigned long long)R.bytes, (unsigned long long)R.updates, (unsigned long long)R.finals, (unsigned long long)R.misuse, (unsigned long long)R.early_finals, (unsigned long long)R.zero_chunks, (unsigned long long)R.interleaved, (unsigned long long)R.moves);
 	s += b;
 	s += ",\"violations\":[";
 	for (size_t i = 0; i < R.v.size(); ++i) s += std::string(i ? "," : "") + "{\"cls\":\"" + R.v[i].cls + "\",\"sig\":\"" + rt::json_escape(R.v[i].sig) + "\",\"detail\":\"" + rt::json_escape(R.v[i].detail) + "\",\"op\":" + std::to_string(R.v[i].step) + ",\"opkind\":\"step\"}";
